@@ -1,5 +1,6 @@
 import ShkModel.Lemmas.Preproc
 import ShkModel.Props.C09
+import ShkModel.Lemmas.PreprocRe
 /-! # C20 — parameters and includes expand exactly where and how the manual says (partial)
 
 Models: `ShkModel/Model/Preproc.lean` (`preprocReplace` as a byte scanner for `~\w+~`, the
@@ -131,6 +132,103 @@ theorem depth_refused (fs : FS) (ipath : List Name) (tbl : Table) (r : Frame) (b
     ∃ d, readLine fs ipath tbl (r :: below) = .err d ∧ d.kind = .depth := by
   obtain ⟨d, h1, h2, _⟩ := Shk.C09.depth_refused fs ipath tbl r below hinv hten hg hinc hni
   exact ⟨d, h1, h2⟩
+
+/-! ## The scanner and the regenerated regexp -/
+section scanner_regexp
+open Shk.Re Shk.Tpl Shk.PreprocRe
+
+/-- **the scanner is the regexp.**  From any position of any text, the regenerated `preprocRe` (`~\w+~` in the Go
+source) matches exactly where the scanner of `Model/Preproc.lean` finds an occurrence, in one way, and ends where
+the scanner resumes. -/
+theorem scanner_is_preprocRe (s : List Char) (p : Nat) (c : Caps) (hp : p ≤ s.length) :
+    ms s Gen.preprocRe ⟨p, c⟩ =
+      match s.drop p with
+      | ch :: t =>
+        if ch.toNat = tilde then
+          match matchAt (t.map Char.toNat) with
+          | some w => [⟨p + w.length + 2, c⟩]
+          | none => []
+        else []
+      | [] => [] := by
+  rw [preprocRe_shape]
+  cases hd : s.drop p with
+  | nil =>
+    have : s[p]? = none := getElem?_of_drop_nil hd
+    simp [ms, stepChar, this]
+  | cons ch t =>
+    have h1 : s[p]? = some ch := getElem?_of_drop hd
+    have hd1 : s.drop (p + 1) = t := drop_succ_of_drop hd
+    have hlen := length_of_drop hd hp
+    simp only [List.length_cons] at hlen
+    by_cases hch : ch.toNat = tilde
+    · have hstep : stepChar s (fun m => m == 126) ⟨p, c⟩ = [⟨p + 1, c⟩] := by
+        unfold stepChar; simp [h1]; exact hch
+      simp only [hch, if_true]
+      rw [show ms s (.cat (.chr 126) (.cat (.plus true (.cls WCls)) (.chr 126))) ⟨p, c⟩
+            = ms s (.cat (.plus true (.cls WCls)) (.chr 126)) ⟨p + 1, c⟩ by
+          simp [ms, hstep]]
+      rw [matchAt_map]
+      have hsplit : t = t.takeWhile isWordC ++ t.dropWhile isWordC := (List.takeWhile_append_dropWhile).symm
+      by_cases hw : t.takeWhile isWordC = []
+      · -- no word character after the tilde
+        have hnone : ms s (.cat (.plus true (.cls WCls)) (.chr 126)) ⟨p + 1, c⟩ = [] := by
+          apply ms_plus_none
+          intro x hx
+          rw [wcls_isWord]
+          cases t with
+          | nil => rw [getElem?_of_drop_nil hd1] at hx; cases hx
+          | cons y t' =>
+            rw [getElem?_of_drop hd1] at hx; cases hx
+            simp only [List.takeWhile_cons] at hw
+            by_cases hy : isWordC x = true
+            · simp [hy] at hw
+            · simpa [isWordC] using hy
+        rw [hnone]
+        cases hdw : t.dropWhile isWordC with
+        | nil => rfl
+        | cons c0 r => simp [hw]
+      · have hall : ∀ x ∈ t.takeWhile isWordC, inRanges WCls x.toNat = true := by
+          intro x hx; rw [wcls_isWord]; exact mem_takeWhile_p hx
+        have htail : ∀ x t', t.dropWhile isWordC = x :: t' → inRanges WCls x.toNat = false := by
+          intro x t' he
+          rw [wcls_isWord]
+          have := List.head?_dropWhile_not isWordC t
+          simpa [he, isWordC] using this
+        have hrej : ∀ k, 1 ≤ k → k < (t.takeWhile isWordC).length →
+            ms s (.chr 126) ⟨p + 1 + k, c⟩ = [] := by
+          intro k _ hk
+          have hget : s[p + 1 + k]? = (t.takeWhile isWordC)[k]? := by
+            have := List.getElem?_drop (xs := s) (i := p + 1) (j := k)
+            rw [hd1] at this
+            rw [← this]; conv => lhs; rw [hsplit]
+            exact List.getElem?_append_left hk
+          have hwk := List.getElem?_eq_getElem hk
+          have hword : isWord ((t.takeWhile isWordC)[k]).toNat = true :=
+            mem_takeWhile_p (p := isWordC) (List.getElem_mem hk)
+          simp [ms, stepChar, hget, hwk, isWord_ne_tilde _ hword]
+        rw [ms_plus_run s WCls (.chr 126) c (p + 1) (t.takeWhile isWordC) (t.dropWhile isWordC)
+          (by rw [hd1]; exact hsplit) (by omega) hw hall htail hrej]
+        have hd2 : s.drop (p + 1 + (t.takeWhile isWordC).length) = t.dropWhile isWordC :=
+          drop_add_of_drop (by rw [hd1]; exact hsplit)
+        cases hdw : t.dropWhile isWordC with
+        | nil =>
+          rw [hdw] at hd2
+          simp [ms, stepChar, getElem?_of_drop_nil hd2]
+        | cons c0 r =>
+          rw [hdw] at hd2
+          have hne : (t.takeWhile isWordC).isEmpty = false := by simpa using hw
+          by_cases hc0 : c0.toNat = tilde
+          · simp [ms, stepChar, getElem?_of_drop hd2, hc0, hne, tilde]; omega
+          · have : (c0.toNat == 126) = false := by simpa [tilde] using hc0
+            simp [ms, stepChar, getElem?_of_drop hd2, this, hne, tilde, hc0]
+    · have : (ch.toNat == 126) = false := by simpa [tilde] using hch
+      simp [ms, stepChar, h1, this, hch]
+
+/-- non-vacuity: `a ~x~ ~~y~` — occurrences at 2 and 7, none at 6 -/
+example : (ms "a ~x~ ~~y~".toList Gen.preprocRe ⟨2, []⟩, ms "a ~x~ ~~y~".toList Gen.preprocRe ⟨6, []⟩,
+    ms "a ~x~ ~~y~".toList Gen.preprocRe ⟨7, []⟩) = ([⟨5, []⟩], [], [⟨10, []⟩]) := by decide
+
+end scanner_regexp
 
 /-! ## Non-vacuity -/
 
